@@ -40,6 +40,23 @@ def main(root):
         "partial": T(mod.f_partial, {"a": int}, int),
         "builtin": T(mod.f_builtin, {"a": List[int]}, int),
         "cls": T(mod.f_class, {"a": int}, int),
+        "prop_gsd": T(K.prop_gsd.fget, {"self": K}, int),
+        "prop_s": T(K.prop_s.fget, {"self": K}, int),
+        "prop_d": T(K.prop_d.fget, {"self": K}, int),
+        "prop_sd": T(K.prop_sd.fget, {"self": K}, int),
+        "sub_run": T(mod.Sub.run, {"self": mod.Sub, "x": int}, int),
+        "sub_run_ret": T(mod.Sub.run, {"self": mod.Sub, "x": str}, B),
+        "ali_run": T(mod.Ali.run, {"self": mod.Ali, "x": str}, str),
+        "base_run": T(mod.Base.run, {"self": mod.Base, "x": float}, float),
+        "sub_keep": T(mod.Sub.keep, {"self": mod.Sub, "x": int}, int),
+        "alias": T(mod.f_alias, {"a": int}, int),
+        "closure": T(mod.f_closure, {"a": str}, str),
+        "plaindeco": T(mod.f_plaindeco, {"a": int}, List[int]),
+        "pm": T(K.pm, {"self": K, "x": int}, int),
+        "selfpartial": T(mod.f_selfpartial, {"a": int, "b": int}, int),
+        "alias_argcls": T(mod.f_alias, {"a": A}, int),
+        "lru": T(mod.f_lru, {"a": int}, int),
+        "moved": T(mod.f_moved, {"a": int}, int),
         "prop_set": T(K.prop_set.fget, {"self": K}, int),
         "prop_del": T(K.prop_del.fget, {"self": K}, int),
         "prop_nog": T(K.prop_nog.fget, {"self": K}, int),
